@@ -1,6 +1,7 @@
 import AdaptiveProofs.Lemmas.TriGeom
 import AdaptiveProofs.Lemmas.TriVolume
 import AdaptiveProofs.Lemmas.TriNoInternal
+import AdaptiveProofs.Lemmas.TriCavityModel
 import Mathlib.Tactic.Ring
 import Mathlib.Tactic.Linarith
 import Mathlib.Algebra.Order.Ring.Abs
@@ -122,10 +123,17 @@ theorem simplex_split_volume_3d_abs {α : Type} [CommRing α] [LinearOrder α] [
 and every oracle answer is the true geometric predicate (`Truthful`), every reachable state is a valid simplicial
 tiling of the convex hull (facets in ≤ 2 simplices, every point a vertex of some simplex, the simplices cover the
 hull and do not overlap), and it is Delaunay in the supplied metric when the points are in general position.
-NOT CLAIMED AS PROVED.  Missing: a formal correctness proof of Bowyer–Watson cavity retriangulation and of the hull
-extension over exact predicates (star-shapedness of the cavity, conservation of volume by
-`simplex_split_volume_*` over the cavity).  On the real code the clauses are audited exactly after every insertion
-by `harness/tri_drive.py`. -/
+NOT CLAIMED AS PROVED.  NOW PROVED of it (last section of this file, `Lemmas/TriCavity*.lean`): conservation of
+volume by the cavity retriangulation in dimension 2 and 3 — IF the deleted simplices are a locally valid piece of a
+triangulation (`OppositeSides2/3`: two simplices sharing a facet lie strictly on opposite sides of it, no facet in
+more than two simplices), are non-degenerate, and the cavity is star-shaped with respect to the new point, THEN the
+simplices `face ++ [pt]` over the model's hole faces have exactly the total volume of the deleted ones
+(`cavity_volume_conserved_2d/_3d`), and this is what one accepted interior `bowyer_watson` / `add_point` of the
+model does (`bowyer_watson_preserves_volume_2d/_3d`, `add_point_interior_preserves_volume_2d`): the total simplex
+volume is unchanged.  STILL MISSING: that truthful predicates IMPLY those three geometric hypotheses for the cavity
+(star-shapedness from the in-circle test, the local tiling property as an invariant), the hull-extension path, the
+cover/disjointness clauses as sets (only their volume shadow is proved), and Delaunay.  On the real code the
+clauses are audited exactly after every insertion by `harness/tri_drive.py`. -/
 def tiles_hull_statement : Prop :=
   ∀ (d : ℕ) (a : Fin d → ℝ) (x : ℕ → Pt d) (s : State),
     (∀ i, 0 < a i) → Function.Injective x → GeomReachable a x s →
@@ -157,5 +165,223 @@ example : addPoint exS0 (some [0, 1, 2]) { reduced := some [1] } = .error (.reje
 example : addPoint exS0 (some [0, 1, 2]) { reduced := some [] } = .error (.reject .outsideSimplex exS0) := by decide
 example : area2 ((0 : ℚ), (0 : ℚ)) (4, 0) (0, 4) = 16 ∧ 0 ≤ area2 ((1 : ℚ), (1 : ℚ)) (4, 0) (0, 4) := by
   simp only [area2]; norm_num
+
+/-! ## Conservation of volume by the cavity retriangulation (algebraic core of the geometric half)
+
+Helper lemmas: `Lemmas/TriCavity.lean` (cancellation over the cavity, any dimension; `area2`/`vol6` instances) and
+`Lemmas/TriCavityModel.lean` (what `bowyerWatson` deletes and adds, exactly).  Notation: `x : ℕ → α × α` the
+coordinates over any ordered commutative ring (ℚ, ℝ, …), `sv2 x [i,j,k] = area2 (x i) (x j) (x k)` twice the signed
+area, `osign` its sign, `sve2 x t e p` the signed area of `t` with the vertex opposite to the edge `e` replaced IN
+PLACE by `p`, `hole 2 bad` the model's hole-face list (`faces.filter (count < 2)`), `owner 2 bad e` the bad
+triangle that has the edge `e` (unique for a hole edge: `owner_eq`).  `sv3`, `sve3`, `hole 3`: the same for
+tetrahedra (`vol6`).
+
+Hypotheses of the theorems, all about TRUTHFUL GEOMETRY of the deleted simplices, none about the code:
+`OppositeSides2 x bad` (two triangles of `bad` sharing an edge have their third vertices strictly on opposite
+sides of it; no edge in more than two triangles of `bad`), `sv2 x t ≠ 0` (no degenerate triangle; without it (4) is
+FALSE, kernel-checked counterexample below), and star-shapedness (`x pt` is on the inner side of every hole edge). -/
+
+/-- C03.e (1)  The signed areas over the three edges of a triangle add up to the triangle for every apex `p`
+(this is `simplex_split_volume_2d` read over `combos 2 t`, the model's face enumeration), and two triangles
+sharing an edge see it with in-place replacements that differ by the parity sign `ε = ±1`, for ALL `q`. -/
+theorem cavity_split_and_shared_2d {α : Type} [CommRing α] (x : ℕ → α × α) {i j k : ℕ} (hij : i < j) (hjk : j < k)
+    (p : α × α) :
+    sv2 x [i, j, k] = ((combos 2 [i, j, k]).map (fun e => sve2 x [i, j, k] e p)).sum ∧
+    (∀ (t e : Simplex) (q : α × α), e ∈ combos 2 [i, j, k] →
+      sve2 x t e q = (esign2 t e * esign2 [i, j, k] e) * sve2 x [i, j, k] e q) ∧
+    (∀ e ∈ combos 2 [i, j, k], (esign2 [i, j, k] e : α) = 1 ∨ (esign2 [i, j, k] e : α) = -1) :=
+  ⟨sv2_split x hij hjk p, fun t e q he => sve2_shared x t e he q, fun _ he => esign2_unit he⟩
+
+/-- C03.e (3)  INTERIOR CANCELLATION, dimension 2: under the local tiling hypothesis the total area of the deleted
+triangles equals the sum over the model's hole edges `e` of (orientation of the owner `t_e`) × (signed area of `t_e`
+with the vertex opposite to `e` replaced by `p`) — for EVERY point `p` (interior edges occur in two triangles and
+cancel; hole edges occur once). -/
+theorem cavity_interior_cancellation_2d {α : Type} [CommRing α] [LinearOrder α] [IsStrictOrderedRing α]
+    (x : ℕ → α × α) (bad : List Simplex) (hN : bad.Nodup)
+    (hS : ∀ t ∈ bad, t.length = 3 ∧ t.Pairwise (· < ·)) (hO : OppositeSides2 x bad) (p : α × α) :
+    (bad.map (fun t => |sv2 x t|)).sum =
+      ((hole 2 bad).map (fun e => osign (sv2 x (owner 2 bad e)) * sve2 x (owner 2 bad e) e p)).sum :=
+  interior_cancellation_2d x bad hN hS hO p
+
+/-- C03.e (4)  STAR-SHAPED CAVITY ⇒ AREA CONSERVED, dimension 2: if moreover the deleted triangles are non-degenerate
+and `x pt` sees every hole edge from the inside, the triangles `e ++ [pt]` the model adds over the hole edges have
+exactly the total area of the triangles it removed. -/
+theorem cavity_volume_conserved_2d {α : Type} [CommRing α] [LinearOrder α] [IsStrictOrderedRing α]
+    (x : ℕ → α × α) (bad : List Simplex) (pt : ℕ) (hN : bad.Nodup)
+    (hS : ∀ t ∈ bad, t.length = 3 ∧ t.Pairwise (· < ·)) (hO : OppositeSides2 x bad)
+    (hnd : ∀ t ∈ bad, sv2 x t ≠ 0)
+    (hstar : ∀ e ∈ hole 2 bad, 0 ≤ osign (sv2 x (owner 2 bad e)) * sve2 x (owner 2 bad e) e (x pt)) :
+    (bad.map (fun t => |sv2 x t|)).sum = ((hole 2 bad).map (fun e => |sv2 x (e ++ [pt])|)).sum :=
+  cavity_conserved_2d x bad pt hN hS hO hnd hstar
+
+/-- C03.e (3), dimension 3. -/
+theorem cavity_interior_cancellation_3d {α : Type} [CommRing α] [LinearOrder α] [IsStrictOrderedRing α]
+    (x : ℕ → α × α × α) (bad : List Simplex) (hN : bad.Nodup)
+    (hS : ∀ t ∈ bad, t.length = 4 ∧ t.Pairwise (· < ·)) (hO : OppositeSides3 x bad) (p : α × α × α) :
+    (bad.map (fun t => |sv3 x t|)).sum =
+      ((hole 3 bad).map (fun e => osign (sv3 x (owner 3 bad e)) * sve3 x (owner 3 bad e) e p)).sum :=
+  interior_cancellation_3d x bad hN hS hO p
+
+/-- C03.e (4), dimension 3: the tetrahedra `f ++ [pt]` over the hole faces have the total volume of the cavity. -/
+theorem cavity_volume_conserved_3d {α : Type} [CommRing α] [LinearOrder α] [IsStrictOrderedRing α]
+    (x : ℕ → α × α × α) (bad : List Simplex) (pt : ℕ) (hN : bad.Nodup)
+    (hS : ∀ t ∈ bad, t.length = 4 ∧ t.Pairwise (· < ·)) (hO : OppositeSides3 x bad)
+    (hnd : ∀ t ∈ bad, sv3 x t ≠ 0)
+    (hstar : ∀ e ∈ hole 3 bad, 0 ≤ osign (sv3 x (owner 3 bad e)) * sve3 x (owner 3 bad e) e (x pt)) :
+    (bad.map (fun t => |sv3 x t|)).sum = ((hole 3 bad).map (fun e => |sv3 x (e ++ [pt])|)).sum :=
+  cavity_conserved_3d x bad pt hN hS hO hnd hstar
+
+/-- C03.e (5a)  What one accepted `bowyer_watson` with a FRESH vertex index and no "almost flat" answer does, exactly
+(all oracle answers, any dimension): `deleted` ⊆ old simplices, `added = {f ++ [pt] | f ∈ hole deleted}` with the
+model's own hole-face list, new simplex set `= (old \ deleted) ∪ added`, no list has repetitions. -/
+theorem bowyer_watson_exact {s s' : State} {pt : ℕ} {start : Option Simplex} {circ fl fl' : List (Simplex × Bool)}
+    {deleted added : List Simplex} (hI : Inv s) (hpt : s.nVerts = pt + 1)
+    (hfresh : ∀ t ∈ s.simplices, ∀ v ∈ t, v < pt)
+    (hstart : ∀ c, start = some c → c ∈ s.simplices) (hfl : ∀ r ∈ fl, r.2 = false)
+    (hok : bowyerWatson s pt start circ fl = .ok (s', deleted, added, fl')) :
+    deleted.Nodup ∧ added.Nodup ∧ (∀ u ∈ deleted, u ∈ s.simplices) ∧
+    (∀ u, u ∈ added ↔ ∃ f ∈ hole s.dim deleted, u = f ++ [pt]) ∧
+    (∀ u, u ∈ s'.simplices ↔ ((u ∈ s.simplices ∧ u ∉ deleted) ∨ u ∈ added)) ∧
+    (s.simplices.Nodup → s'.simplices.Nodup) :=
+  bowyerWatson_exact hI hpt hfresh hstart hfl hok
+
+/-- C03.e (5)  ONE ACCEPTED INTERIOR INSERTION OF THE MODEL CONSERVES THE AREA (dimension 2): `bowyer_watson` called with
+the fresh last vertex index, no hole triangle reported almost flat, and truthful geometry of the cavity
+`bad = deleted` (local tiling hypothesis, non-degenerate, star-shaped w.r.t. `x pt`): the added triangles have the
+total area of the deleted ones, hence the total area of the triangulation is unchanged. -/
+theorem bowyer_watson_preserves_volume_2d {α : Type} [CommRing α] [LinearOrder α] [IsStrictOrderedRing α]
+    (x : ℕ → α × α) {s s' : State} {pt : ℕ} {start : Option Simplex}
+    {circ fl fl' : List (Simplex × Bool)} {deleted added : List Simplex}
+    (hI : Inv s) (hdim : s.dim = 2) (hpt : s.nVerts = pt + 1)
+    (hfresh : ∀ t ∈ s.simplices, ∀ v ∈ t, v < pt)
+    (hstart : ∀ c, start = some c → c ∈ s.simplices) (hfl : ∀ r ∈ fl, r.2 = false)
+    (hok : bowyerWatson s pt start circ fl = .ok (s', deleted, added, fl'))
+    (hO : OppositeSides2 x deleted) (hnd : ∀ t ∈ deleted, sv2 x t ≠ 0)
+    (hstar : ∀ e ∈ hole 2 deleted,
+      0 ≤ osign (sv2 x (owner 2 deleted e)) * sve2 x (owner 2 deleted e) e (x pt)) :
+    (added.map (fun t => |sv2 x t|)).sum = (deleted.map (fun t => |sv2 x t|)).sum ∧
+    (s.simplices.Nodup →
+      (s'.simplices.map (fun t => |sv2 x t|)).sum = (s.simplices.map (fun t => |sv2 x t|)).sum) :=
+  bowyerWatson_volume_2d x hI hdim hpt hfresh hstart hfl hok hO hnd hstar
+
+/-- C03.e (5), dimension 3. -/
+theorem bowyer_watson_preserves_volume_3d {α : Type} [CommRing α] [LinearOrder α] [IsStrictOrderedRing α]
+    (x : ℕ → α × α × α) {s s' : State} {pt : ℕ} {start : Option Simplex}
+    {circ fl fl' : List (Simplex × Bool)} {deleted added : List Simplex}
+    (hI : Inv s) (hdim : s.dim = 3) (hpt : s.nVerts = pt + 1)
+    (hfresh : ∀ t ∈ s.simplices, ∀ v ∈ t, v < pt)
+    (hstart : ∀ c, start = some c → c ∈ s.simplices) (hfl : ∀ r ∈ fl, r.2 = false)
+    (hok : bowyerWatson s pt start circ fl = .ok (s', deleted, added, fl'))
+    (hO : OppositeSides3 x deleted) (hnd : ∀ t ∈ deleted, sv3 x t ≠ 0)
+    (hstar : ∀ e ∈ hole 3 deleted,
+      0 ≤ osign (sv3 x (owner 3 deleted e)) * sve3 x (owner 3 deleted e) e (x pt)) :
+    (added.map (fun t => |sv3 x t|)).sum = (deleted.map (fun t => |sv3 x t|)).sum ∧
+    (s.simplices.Nodup →
+      (s'.simplices.map (fun t => |sv3 x t|)).sum = (s.simplices.map (fun t => |sv3 x t|)).sum) :=
+  bowyerWatson_volume_3d x hI hdim hpt hfresh hstart hfl hok hO hnd hstar
+
+/-- C03.e (5')  The same at the level of `add_point`: an accepted insertion that does not go through `_extend_hull`
+(hint / `locate_point` answer is a simplex, not `()`) from a state satisfying the invariant — freshness of the new
+index then FOLLOWS from the invariant — reports `(deleted, added)` of equal total area and leaves the total area of
+the triangulation unchanged, under the same truthful-geometry hypotheses for `bad = deleted`, new point `x s.nVerts`. -/
+theorem add_point_interior_preserves_volume_2d {α : Type} [CommRing α] [LinearOrder α] [IsStrictOrderedRing α]
+    (x : ℕ → α × α) {s s' : State} {hint : Option Simplex} {o : Oracle}
+    {D A : List Simplex} (hI : Inv s) (hdim : s.dim = 2) (hv : ValidHint s hint) (hh : hint ≠ some [])
+    (hl : o.locate ≠ some []) (hfl : ∀ r ∈ o.flat, r.2 = false)
+    (hok : addPoint s hint o = .ok (s', D, A))
+    (hO : OppositeSides2 x D) (hnd : ∀ t ∈ D, sv2 x t ≠ 0)
+    (hstar : ∀ e ∈ hole 2 D, 0 ≤ osign (sv2 x (owner 2 D e)) * sve2 x (owner 2 D e) e (x s.nVerts)) :
+    (A.map (fun t => |sv2 x t|)).sum = (D.map (fun t => |sv2 x t|)).sum ∧
+    (s.simplices.Nodup →
+      (s'.simplices.map (fun t => |sv2 x t|)).sum = (s.simplices.map (fun t => |sv2 x t|)).sum) :=
+  addPoint_interior_volume_2d x hI hdim hv hh hl hfl hok hO hnd hstar
+
+/-- C03.e (5'), dimension 3. -/
+theorem add_point_interior_preserves_volume_3d {α : Type} [CommRing α] [LinearOrder α] [IsStrictOrderedRing α]
+    (x : ℕ → α × α × α) {s s' : State} {hint : Option Simplex} {o : Oracle}
+    {D A : List Simplex} (hI : Inv s) (hdim : s.dim = 3) (hv : ValidHint s hint) (hh : hint ≠ some [])
+    (hl : o.locate ≠ some []) (hfl : ∀ r ∈ o.flat, r.2 = false)
+    (hok : addPoint s hint o = .ok (s', D, A))
+    (hO : OppositeSides3 x D) (hnd : ∀ t ∈ D, sv3 x t ≠ 0)
+    (hstar : ∀ e ∈ hole 3 D, 0 ≤ osign (sv3 x (owner 3 D e)) * sve3 x (owner 3 D e) e (x s.nVerts)) :
+    (A.map (fun t => |sv3 x t|)).sum = (D.map (fun t => |sv3 x t|)).sum ∧
+    (s.simplices.Nodup →
+      (s'.simplices.map (fun t => |sv3 x t|)).sum = (s.simplices.map (fun t => |sv3 x t|)).sum) :=
+  addPoint_interior_volume_3d x hI hdim hv hh hl hfl hok hO hnd hstar
+
+/-- C03.e  The side condition `s.simplices.Nodup` of the total-volume statements holds in every state of every
+history (the list `simplices` is a set), for all oracle answers. -/
+theorem tri_simplices_nodup {dim n : ℕ} {initial : List Simplex} (hv : ∀ t ∈ initial, ValidRaw dim n t) {s : State}
+    (h : Reachable dim n initial s) : s.simplices.Nodup :=
+  reachable_nodup hv h
+
+/-! ### Non-vacuity (6): the square `(0,0) (4,0) (4,4) (0,4)` split along the diagonal, new point `(2,1)` -/
+
+example : init 2 4 [[0, 1, 2], [0, 2, 3]] = .ok exSq := by decide
+
+/-- the model's run: both triangles are deleted, four triangles over the four hole edges are added -/
+theorem exSq_run : addPoint exSq (some [0, 1, 2]) exOsq =
+    .ok (exSq1, [[0, 1, 2], [0, 2, 3]], [[0, 1, 4], [1, 2, 4], [0, 3, 4], [2, 3, 4]]) := by decide
+
+theorem exSq_inv : Inv exSq := by
+  refine init_inv (dim := 2) (n := 4) (initial := [[0, 1, 2], [0, 2, 3]]) ?_ (by decide)
+  intro t ht
+  simp only [List.mem_cons, List.not_mem_nil, or_false] at ht
+  rcases ht with rfl | rfl <;> exact ⟨rfl, by decide, by decide⟩
+
+example : hole 2 [[0, 1, 2], [0, 2, 3]] = [[0, 1], [1, 2], [0, 3], [2, 3]] := by decide
+
+/-- the local tiling hypothesis holds for the two triangles of the square -/
+theorem exSq_opposite : OppositeSides2 exX [[0, 1, 2], [0, 2, 3]] := by
+  refine ⟨?_, count_le_two_of_mem (by decide)⟩
+  norm_num [combos, sve2, sv2, area2, exX]
+
+/-- the cavity (the whole square) is star-shaped with respect to `(2,1)` -/
+theorem exSq_star : ∀ e ∈ hole 2 [[0, 1, 2], [0, 2, 3]],
+    0 ≤ osign (sv2 exX (owner 2 [[0, 1, 2], [0, 2, 3]] e)) * sve2 exX (owner 2 [[0, 1, 2], [0, 2, 3]] e) e (exX 4) := by
+  have h0 : hole 2 [[0, 1, 2], [0, 2, 3]] = [[0, 1], [1, 2], [0, 3], [2, 3]] := by decide
+  have h1 : owner 2 [[0, 1, 2], [0, 2, 3]] [0, 1] = [0, 1, 2] := by decide
+  have h2 : owner 2 [[0, 1, 2], [0, 2, 3]] [1, 2] = [0, 1, 2] := by decide
+  have h3 : owner 2 [[0, 1, 2], [0, 2, 3]] [0, 3] = [0, 2, 3] := by decide
+  have h4 : owner 2 [[0, 1, 2], [0, 2, 3]] [2, 3] = [0, 2, 3] := by decide
+  rw [h0]
+  simp only [List.forall_mem_cons, h1, h2, h3, h4]
+  norm_num [sve2, sv2, area2, exX, osign]
+
+/-- all hypotheses of `add_point_interior_preserves_volume_2d` hold for this run, so its conclusion does -/
+example :
+    (([[0, 1, 4], [1, 2, 4], [0, 3, 4], [2, 3, 4]] : List Simplex).map (fun t => |sv2 exX t|)).sum =
+      (([[0, 1, 2], [0, 2, 3]] : List Simplex).map (fun t => |sv2 exX t|)).sum :=
+  (add_point_interior_preserves_volume_2d exX exSq_inv rfl
+    (by intro h hh; cases hh; exact Or.inr (by decide)) (by decide) (by decide) (by decide) exSq_run
+    exSq_opposite (by norm_num [sv2, area2, exX]) exSq_star).1
+
+/-- … and, independently, both sides are `32` (twice the area of the square) -/
+example : (([[0, 1, 4], [1, 2, 4], [0, 3, 4], [2, 3, 4]] : List Simplex).map (fun t => |sv2 exX t|)).sum = 32 ∧
+    (([[0, 1, 2], [0, 2, 3]] : List Simplex).map (fun t => |sv2 exX t|)).sum = 32 := by
+  norm_num [sv2, area2, exX]
+
+/-- COUNTEREXAMPLE: without non-degeneracy (4) is false.  One flat "triangle" `(0,0) (1,0) (2,0)`, new point `(0,1)`:
+the local tiling hypothesis and star-shapedness hold (the orientation of the flat triangle is `0`), the cavity has
+area `0`, the three triangles over its edges have total doubled area `4`. -/
+example : OppositeSides2 exXflat [[0, 1, 2]] ∧
+    (∀ e ∈ hole 2 [[0, 1, 2]],
+      0 ≤ osign (sv2 exXflat (owner 2 [[0, 1, 2]] e)) * sve2 exXflat (owner 2 [[0, 1, 2]] e) e (exXflat 3)) ∧
+    (([[0, 1, 2]] : List Simplex).map (fun t => |sv2 exXflat t|)).sum = 0 ∧
+    ((hole 2 [[0, 1, 2]]).map (fun e => |sv2 exXflat (e ++ [3])|)).sum = 4 := by
+  have h0 : hole 2 [[0, 1, 2]] = [[0, 1], [0, 2], [1, 2]] := by decide
+  have h1 : owner 2 [[0, 1, 2]] [0, 1] = [0, 1, 2] := by decide
+  have h2 : owner 2 [[0, 1, 2]] [0, 2] = [0, 1, 2] := by decide
+  have h3 : owner 2 [[0, 1, 2]] [1, 2] = [0, 1, 2] := by decide
+  refine ⟨⟨?_, count_le_two_of_mem (by decide)⟩, ?_, ?_, ?_⟩
+  · intro t ht t' ht' hne
+    simp only [List.mem_singleton] at ht ht'
+    exact absurd (ht.trans ht'.symm) hne
+  · rw [h0]
+    simp only [List.forall_mem_cons, h1, h2, h3]
+    norm_num [sve2, sv2, area2, exXflat, osign]
+  · norm_num [sv2, area2, exXflat]
+  · rw [h0]
+    norm_num [sv2, area2, exXflat]
 
 end Tri
